@@ -255,3 +255,58 @@ Theorem parse_top_inv c0 bin i : is_set s_no_binary_name c0 = false ->
 Proof.
   intros Hn Hv Hw. unfold parse_top. rewrite Hn. fold (with_bin c0 bin). apply do_parse_inv; assumption.
 Qed.
+
+(** * trees without global arguments: [_do_parse] returns the matches of [get_matches_with] unchanged *)
+Fixpoint no_globals (c : cmd) : bool :=
+  match c with
+  | mkCmd _ _ _ _ _ _ args _ subs _ _ _ _ _ _ _ _ _ =>
+      forallb (fun a => negb (a_global a)) args
+      && (fix go (l : list cmd) : bool := match l with [] => true | s :: t => no_globals s && go t end) subs
+  end.
+
+Lemma no_globals_parts c : no_globals c = true ->
+  forallb (fun a => negb (a_global a)) (c_args c) = true /\ forall s, In s (c_subs c) -> no_globals s = true.
+Proof.
+  destruct c as [n al sf lf sfa lfa args groups subs cs gs v lv ev bn dn ab lab]. cbn [no_globals c_args c_subs].
+  intros H. apply andb_prop in H. destruct H as [H1 H2]. split; [exact H1|].
+  induction subs as [|s t IH]; intros s0 Hin; [destruct Hin|].
+  apply andb_prop in H2. destruct H2 as [Hs Ht]. destruct Hin as [<-|Hin]; [exact Hs|apply IH; assumption].
+Qed.
+
+Lemma used_global_args_none : forall fuel c m, no_globals c = true -> used_global_args fuel c m = [].
+Proof.
+  induction fuel as [|f IH]; intros c m H; [reflexivity|]. destruct (no_globals_parts c H) as [H1 H2].
+  cbn [used_global_args].
+  assert (E : filter a_global (c_args c) = []).
+  { clear -H1. induction (c_args c) as [|a l IHl]; [reflexivity|]. cbn [forallb] in H1. apply andb_prop in H1. destruct H1 as [Ha Hl].
+    cbn [filter]. destruct (a_global a); [discriminate|]. apply IHl. exact Hl. }
+  rewrite E. cbn [map app]. destruct (ms_sub m) as [[name sm]|]; [|reflexivity].
+  destruct (find_subcommand c name) as [sc|] eqn:F; [|reflexivity].
+  apply IH. apply H2. unfold find_subcommand in F. apply find_some in F. apply F.
+Qed.
+
+Lemma fill_no_globals : forall fuel m, fill_in_global_values fuel [] m [] = (m, []).
+Proof.
+  induction fuel as [|f IH]; intros m; [reflexivity|]. cbn [fill_in_global_values fold_left].
+  destruct m as [args sub]. cbn [ms_sub ms_args]. destruct sub as [[name sm]|].
+  - rewrite IH. reflexivity.
+  - reflexivity.
+Qed.
+
+Theorem finish_no_globals c0 st :
+  no_globals (build_recursive (S (S (depth (build_self c0)))) c0) = true ->
+  finish_outcome c0 (ROk st) = OOk (into_inner (mt st)).
+Proof.
+  intros H. unfold finish_outcome. rewrite (used_global_args_none _ _ _ H). rewrite fill_no_globals. reflexivity.
+Qed.
+
+(** THE UN-PARSER THEOREM in its planned form, for trees without global arguments: parsing the
+    rendered invocation succeeds exactly when its meaning does, with exactly those matches *)
+Theorem parse_top_denote c0 bin i st : is_set s_no_binary_name c0 = false ->
+  valid (with_bin c0 bin) = true -> wf_inv (build_self (with_bin c0 bin)) i = true ->
+  no_globals (build_recursive (S (S (depth (build_self (with_bin c0 bin))))) (with_bin c0 bin)) = true ->
+  run_inv (build_self (with_bin c0 bin)) i = ROk st ->
+  parse_top c0 (bin :: render_inv i) = OOk (into_inner (mt st)).
+Proof.
+  intros Hn Hv Hw Hg Hr. rewrite (parse_top_inv c0 bin i Hn Hv Hw), Hr. apply finish_no_globals. exact Hg.
+Qed.
